@@ -91,6 +91,7 @@ func fieldReadsOn(p *Prog, root *ssa.Function, T *types.Named) map[string]bool {
 
 // C08 — genesis export then import reproduces the custom-module state.
 func checkC08(p *Prog, r *Report) {
+	checkExportLoadsRequestedHeight(p, r, func(rule, rest string) string { return rule + ":C08:" + rest })
 	checkNoDroppedErrors(p, r, "C08", "x/*", func(fn *ssa.Function) bool { return InPkgs(fn, "x") })
 	checkNoNilWrap(p, r, "C08", "x/<module> (genesis code), x/<module>/types", func(fn *ssa.Function) bool {
 		return inExactPkgs(fn, "x/aol", "x/did", "x/pnft", "x/burn", "x/aol/types", "x/did/types", "x/pnft/types", "x/burn/types")
@@ -231,6 +232,7 @@ func checkC08(p *Prog, r *Report) {
 			r.Check(len(bad) == 0, kp("ORIGIN", "x/aol.ExportGenesis#maps-only-grow"), "export: an exported map is filled once and nothing is taken out of it again", p.FnPos(exp),
 				fmt.Sprintf("%d export units, map fields assigned: %d", len(expUnits), len(stores)), strings.Join(bad, "; ")+": entries put into the genesis map can be dropped again before it is returned")
 		}
+		checkAolExportLoopBounds(p, r, kp)
 		// every exported entry is put into the map on every iteration (no conditional skip)
 		nExpLoops := 0
 		for _, eu := range expUnits {
